@@ -387,13 +387,15 @@ fn gen_program(hs: &HistSeed, cfg: Cfg, prefix: &[Call]) -> Vec<Cmd> {
                             nvars += 1;
                             // the family of names is fixed per script in half of the scripts, so that
                             // names that differ only slightly meet in one text
-                            let fam = if hs.order_sel & 1 == 1 { (hs.order_sel >> 1) % 10 } else { b % 10 };
+                            let fam = if hs.order_sel & 1 == 1 { (hs.order_sel >> 1) % 11 } else { b % 11 };
                             let name = match fam {
                                 // different spellings of one number are different names: ν1, ν01, ν001, 2, 02, ...
                                 7 => format!("ν{}{}", "0".repeat((nvars as usize - 1) % 3), (nvars - 1) / 3 + 1),
                                 8 => format!("{}{}", "0".repeat((nvars as usize - 1) % 3), (nvars - 1) / 3 + 1),
                                 // names that differ in case only
                                 9 => format!("{}{}", if nvars % 2 == 0 { "Tmp" } else { "tmp" }, (nvars + 1) / 2),
+                                // names that differ only by a leading ν: $ν1 and $1, $νa and $a
+                                10 => format!("{}{}", if nvars % 2 == 0 { "" } else { "ν" }, if nvars > 6 { format!("k{}", (nvars + 1) / 2) } else { ((nvars + 1) / 2).to_string() }),
                                 0 => format!("ν{nvars}"),
                                 1 => format!("v{nvars}"),
                                 2 => format!("x_{nvars}"),
@@ -473,6 +475,19 @@ impl Fmt<'_> {
         const W: [&str; 10] = ["", "", "", " ", " ", "  ", "\t", "\n", " \n  ", "\r\n"];
         W[idx(self.next(), W.len())]
     }
+    /// white space at a command boundary (before the opcode, after the closing parenthesis, at
+    /// both ends of the text): there every Unicode white-space character is trimmed away like a
+    /// blank — one boundary in eight carries NBSP, U+3000, a vertical tab, NEL or U+2028
+    fn bws(&mut self) -> &'static str {
+        const U: [&str; 6] = ["\u{a0}", "\u{a0}\u{a0}", "\u{3000} ", "\u{b}", "\u{85}\n", "\u{2028}"];
+        let v = self.next();
+        if v % 8 == 5 {
+            U[idx((v / 8).wrapping_mul(8191), U.len())]
+        } else {
+            const W: [&str; 10] = ["", "", "", " ", " ", "  ", "\t", "\n", " \n  ", "\r\n"];
+            W[idx(v, W.len())]
+        }
+    }
     fn blanks(&mut self) -> &'static str {
         const W: [&str; 4] = ["", "", " ", "  "];
         W[idx(self.next(), W.len())]
@@ -532,12 +547,12 @@ const COMMENTS: [&str; 6] = [
 pub fn render_program(cmds: &[Cmd], seeds: &[u16]) -> String {
     let mut f = Fmt { seeds, pos: 0 };
     let mut s = String::new();
-    s.push_str(f.ws());
+    s.push_str(f.bws());
     for (i, c) in cmds.iter().enumerate() {
         if f.next() % 5 == 0 {
             s.push_str(COMMENTS[idx(f.next(), COMMENTS.len())]);
         }
-        s.push_str(f.ws());
+        s.push_str(f.bws());
         let (op, args): (&str, Vec<String>) = match c {
             Cmd::Add(a) => ("ADD", vec![render_arg(a, &mut f)]),
             Cmd::Bind(a, b, l) => ("BIND", vec![render_arg(a, &mut f), render_arg(b, &mut f), l.text()]),
@@ -555,7 +570,7 @@ pub fn render_program(cmds: &[Cmd], seeds: &[u16]) -> String {
             s.push_str(f.ws());
         }
         s.push(')');
-        s.push_str(f.ws());
+        s.push_str(f.bws());
         let last = i + 1 == cmds.len();
         if !last || f.next() % 3 != 0 {
             s.push(';');
@@ -569,7 +584,7 @@ pub fn render_program(cmds: &[Cmd], seeds: &[u16]) -> String {
             s.push_str(COMMENTS[idx(f.next(), COMMENTS.len())]);
         }
     }
-    s.push_str(f.ws());
+    s.push_str(f.bws());
     s
 }
 
